@@ -1,3 +1,4 @@
+pub mod c02;
 pub mod c10;
 pub mod c12;
 pub mod c13;
@@ -10,6 +11,7 @@ pub type CheckFn = fn(&mut Ctx) -> (&'static str, String, bool);
 
 pub fn lookup(id: &str) -> Option<CheckFn> {
     Some(match id {
+        "C02" => c02::run,
         "C10" => c10::run,
         "C12" => c12::run,
         "C13" => c13::run,
